@@ -331,10 +331,16 @@ def h2(text):
     return [int.from_bytes(h[0:4], "big") >> 4, int.from_bytes(h[4:8], "big") >> 4]
 
 
+_HASHSEED = [0]
+
+
 def cli_run(prog, args, timeout):
     """one CLI invocation of the tree under test; returns dict(rc, stdout, stderr, hung, wall)"""
     e = env.impl_env("jit")
     e["PYTHONWARNINGS"] = "ignore::SyntaxWarning"
+    # every process has its own string-hash seed in real use (PYTHONHASHSEED unset): repeated runs must not depend on it
+    _HASHSEED[0] = _HASHSEED[0] % 7 + 1
+    e["PYTHONHASHSEED"] = str(_HASHSEED[0])
     t0 = time.time()
     p = subprocess.Popen([env.PY, "-c", CLI_BOOT, prog] + args, stdout=subprocess.PIPE, stderr=subprocess.PIPE, env=e,
                          cwd=env.workdir("cwd"), start_new_session=True)
@@ -462,13 +468,15 @@ class CliInputs:
 
 def prog_args(prog, inp, src):
     """src: for assemble (bed, snv vcf, fasta); for the call programs the haplotype VCF"""
+    # samples are taken from the read-group IDs (one of the BAMs carries two read groups, i.e. contributes two samples)
+    rg = ["--read-group-field", "ID"]
     if prog == "assemble":
         bed, vcf, ref = src
-        return ["--bam"] + inp.bams + ["--ploidy", "4", "--targets", bed, "--variants", vcf, "--reference", ref] + MCMC
+        return ["--bam"] + inp.bams + ["--ploidy", "4", "--targets", bed, "--variants", vcf, "--reference", ref] + MCMC + rg
     if prog == "call":
-        return ["--bam"] + inp.bams + ["--ploidy", "4", "--haplotypes", src] + MCMC
+        return ["--bam"] + inp.bams + ["--ploidy", "4", "--haplotypes", src] + MCMC + rg
     if prog == "call-exact":
-        return ["--bam"] + inp.bams + ["--ploidy", "4", "--haplotypes", src]
+        return ["--bam"] + inp.bams + ["--ploidy", "4", "--haplotypes", src] + rg
     if prog == "call-pedigree":
         return ["--bam"] + inp.bams + ["--sample-parents", inp.ped, "--ploidy", "4", "--haplotypes", src, "--gamete-error", "0.1"] + MCMC
     raise ValueError(prog)
@@ -653,8 +661,9 @@ def cli_validate(ck, data, lap):
     allruns, gids, progs = data["allruns"], data["gids"], data["progs"]
     ck.note("cli_wall_s", data["wall"])
     # ---- summaries -> TLC ------------------------------------------------------------------------
-    ncols = 9 + 3
-    docs = [summarize(r, gids[r["ds"]], ncols) for r in allruns]
+    # 9 fixed columns + sample columns: read-group IDs as samples give 4 (one BAM carries two read groups);
+    # call-pedigree keeps the 3 SM samples its pedigree file names
+    docs = [summarize(r, gids[r["ds"]], 9 + (3 if r["prog"] == "call-pedigree" else 4)) for r in allruns]
     tf = os.path.join(ck.wd, "trace-summaries.json")
     with open(tf, "w") as fh:
         json.dump({"kind": "summaries", "runs": docs}, fh)
